@@ -125,7 +125,7 @@ def _resolve_unwindset(d, harnesses, unwindset, info):
     return ids, p.stdout + "\n" + p.stderr
 
 
-def run(harnesses, timeout_s, jobs=8, extra=None, log_path=None, playback=False, unwindset=None):
+def run(harnesses, timeout_s, jobs=8, extra=None, log_path=None, playback=False, unwindset=None, env_extra=None):
     """harnesses: list of fully qualified harness names. Returns (dict name -> HarnessResult, info)."""
     os.makedirs(shadow.CACHE, exist_ok=True)
     with open(LOCK, "w") as lk0:
@@ -161,7 +161,9 @@ def run(harnesses, timeout_s, jobs=8, extra=None, log_path=None, playback=False,
         wd = threading.Thread(target=_watchdog, args=(stop, killed), daemon=True)
         wd.start()
         try:
-            p = subprocess.run(cmd, cwd=d, env=_env(), capture_output=True, text=True, preexec_fn=_preexec,
+            env = _env()
+            env.update(env_extra or {})
+            p = subprocess.run(cmd, cwd=d, env=env, capture_output=True, text=True, preexec_fn=_preexec,
                                timeout=timeout_s * max(1, (len(harnesses) + jobs - 1) // jobs) + 1800)
             out = p.stdout + "\n" + p.stderr
             info["rc"] = p.returncode
